@@ -4,3 +4,4 @@ CONSTANTS
   MaxCmds = 2
 INVARIANT SEmit
 INVARIANT SEmitEnds
+INVARIANT SEmitCmd
